@@ -362,10 +362,10 @@ pub fn def() -> PropDef {
         rule: "the same byte stream (greeting, READY with 0..2 extra properties, messages of 1..4 frames incl. empty and > 8 KiB frames, READY commands in between) is decoded by a real socket under many partitions into reads and compared with the reference decode of the concatenation; all_partitions_16: index = suffix (3) x 15-bit cut mask over the last 16 bytes, all 98304 enumerated in the thorough tier; cuts_enumerated: single cuts and cut pairs of short streams walked by the index; byte_at_a_time; random_partitions: geometric, +-1 around the 8 KiB read block, +-1 around item boundaries; receiving kinds PULL, DEALER, SUB, ROUTER, XPUB, REP, REQ; non-trivial = at least one cut; distinct = distinct (case, plan, schedule, transport)",
         assumptions: &["exact strata: whole-chunk reads, no latency, next chunk released at the idle barrier, so the executed partition is exactly the planned one", "REQ reads only while a request is outstanding; its application keeps one outstanding"],
         strata: vec![
-            Stratum { name: "all_partitions_16", quick: 6_000, thorough: 3 << 15, exhaustive: (false, true), run: all_partitions_16, what: "all 2^15 partitions of a 16-byte item suffix, three suffixes (thorough: complete)" },
-            Stratum { name: "cuts_enumerated", quick: 30_000, thorough: 600_000, exhaustive: (false, false), run: cuts_enumerated, what: "every single cut / pairs of cuts of short streams" },
-            Stratum { name: "byte_at_a_time", quick: 3_000, thorough: 60_000, exhaustive: (false, false), run: byte_at_a_time, what: "one byte per read" },
-            Stratum { name: "random_partitions", quick: 15_000, thorough: 500_000, exhaustive: (false, false), run: random_partitions, what: "long streams, geometric / block-aligned / item-aligned cuts" },
+            Stratum { name: "all_partitions_16", quick: 12_000, thorough: 3 << 15, exhaustive: (false, true), run: all_partitions_16, what: "all 2^15 partitions of a 16-byte item suffix, three suffixes (thorough: complete)" },
+            Stratum { name: "cuts_enumerated", quick: 60_000, thorough: 600_000, exhaustive: (false, false), run: cuts_enumerated, what: "every single cut / pairs of cuts of short streams" },
+            Stratum { name: "byte_at_a_time", quick: 6_000, thorough: 60_000, exhaustive: (false, false), run: byte_at_a_time, what: "one byte per read" },
+            Stratum { name: "random_partitions", quick: 30_000, thorough: 500_000, exhaustive: (false, false), run: random_partitions, what: "long streams, geometric / block-aligned / item-aligned cuts" },
         ],
     }
 }
